@@ -118,23 +118,32 @@ type c34Op struct {
 }
 
 func c34Classify(dump string) (deadlock bool, summary string) {
-	blocked, runnable := 0, 0
+	blocked, runnable, minutes := 0, 0, 0
 	for _, g := range strings.Split(dump, "\n\n") {
-		if !strings.Contains(g, "github.com/slackhq/nebula") || strings.Contains(g, "zz_verif_") {
+		if !strings.Contains(g, "github.com/slackhq/nebula") {
 			continue
 		}
 		first := g
 		if i := strings.IndexByte(g, '\n'); i > 0 {
 			first = g[:i]
 		}
+		// the goroutine's wait reason (goroutines of the harness that are inside a nebula call count:
+		// a control-API caller is as much part of a lock cycle as a packet goroutine)
+		onLock := strings.Contains(first, "[sync.Mutex.Lock") || strings.Contains(first, "[sync.RWMutex.Lock") || strings.Contains(first, "[sync.RWMutex.RLock")
 		switch {
-		case strings.Contains(g, "sync.(*Mutex).Lock") || strings.Contains(g, "sync.(*RWMutex).Lock") || strings.Contains(g, "sync.(*RWMutex).RLock"):
+		case onLock:
 			blocked++
+			if strings.Contains(first, " minutes]") {
+				minutes++
+			}
+		case strings.Contains(g, "zz_verif_c34_test.go") && !strings.Contains(g, "slackhq/nebula.(*"):
+			// router / drain goroutines of the harness
 		case strings.Contains(first, "[running]") || strings.Contains(first, "[runnable]"):
 			runnable++
 		}
 	}
-	return blocked >= 2 && runnable == 0, fmt.Sprintf("nebula goroutines blocked on locks: %d, runnable: %d", blocked, runnable)
+	// a goroutine that has been waiting for a mutex for minutes is stuck whatever else is runnable
+	return (blocked >= 2 && runnable == 0) || minutes >= 1, fmt.Sprintf("nebula goroutines blocked on locks: %d (%d for minutes), runnable: %d", blocked, minutes, runnable)
 }
 
 var c34GoroutineID = regexp.MustCompile(`^goroutine (\d+) \[`)
@@ -143,10 +152,14 @@ var c34GoroutineID = regexp.MustCompile(`^goroutine (\d+) \[`)
 func c34LockWaiters(dump string) map[string]string {
 	out := map[string]string{}
 	for _, g := range strings.Split(dump, "\n\n") {
-		if !strings.Contains(g, "github.com/slackhq/nebula") || strings.Contains(g, "zz_verif_") {
+		if !strings.Contains(g, "github.com/slackhq/nebula") {
 			continue
 		}
-		if strings.Contains(g, "sync.(*Mutex).Lock") || strings.Contains(g, "sync.(*RWMutex).Lock") || strings.Contains(g, "sync.(*RWMutex).RLock") {
+		first := g
+		if i := strings.IndexByte(g, '\n'); i > 0 {
+			first = g[:i]
+		}
+		if strings.Contains(first, "[sync.Mutex.Lock") || strings.Contains(first, "[sync.RWMutex.Lock") || strings.Contains(first, "[sync.RWMutex.RLock") {
 			if m := c34GoroutineID.FindStringSubmatch(g); m != nil {
 				out[m[1]] = g
 			}
